@@ -436,17 +436,39 @@ impl<T> DataReaderEntity<T> {
                 .map(|cc| cc.source_timestamp)
                 .max();
 
-            if let Some(Some(t)) = closest_timestamp_before_received_sample {
-                if let Some(sample_source_time) = sample.source_timestamp {
-                    let sample_separation = sample_source_time - t;
-                    DurationKind::Finite(sample_separation)
-                        >= self.qos.time_based_filter.minimum_separation
+            let is_separated_from_earlier_sample =
+                if let Some(Some(t)) = closest_timestamp_before_received_sample {
+                    if let Some(sample_source_time) = sample.source_timestamp {
+                        let sample_separation = sample_source_time - t;
+                        DurationKind::Finite(sample_separation)
+                            >= self.qos.time_based_filter.minimum_separation
+                    } else {
+                        true
+                    }
                 } else {
                     true
-                }
+                };
+
+            // A sample that arrives out of order must also keep the minimum separation
+            // from the stored sample of the instance that follows it in source time
+            let closest_timestamp_after_received_sample = self
+                .sample_list
+                .iter()
+                .filter(|cc| cc.instance_handle == sample.instance_handle)
+                .filter(|cc| cc.source_timestamp > sample.source_timestamp)
+                .map(|cc| cc.source_timestamp)
+                .min();
+            let is_separated_from_later_sample = if let (Some(Some(t)), Some(sample_source_time)) = (
+                closest_timestamp_after_received_sample,
+                sample.source_timestamp,
+            ) {
+                DurationKind::Finite(t - sample_source_time)
+                    >= self.qos.time_based_filter.minimum_separation
             } else {
                 true
-            }
+            };
+
+            is_separated_from_earlier_sample && is_separated_from_later_sample
         };
 
         if !is_sample_of_interest_based_on_time {
